@@ -43,6 +43,11 @@ def adversarial(rng, own, mtu):
                         F.hello(M, 1, M, M)])
     else:
         f = F.noise(rng, mtu)
+    if f != '-' and rng.random() < 0.15:
+        # encapsulations a real network produces: one 802.1Q tag, a service tag, two tags
+        f = F.vlan(f, rng.choice([0, 1, 100, 0x0fff, 0xe064]), rng.choice(['8100', '8100', '88a8', '9100']))
+        if rng.random() < 0.25:
+            f = F.vlan(f, rng.randrange(4096), '8100')
     if f != '-' and rng.random() < 0.25:
         f = f[:2 * rng.randrange(len(f) // 2 + 1)] or '-'
     if f != '-' and len(f) // 2 > mtu:
@@ -90,6 +95,21 @@ def cases(rng, tier, X):
     out += F.small_scope(2 if tier == 'quick' else 3)
     # one kind of event repeated hundreds / thousands of times (counters wrapping, thresholds, budgets), then ordinary traffic
     out += F.soak_cases(rng, tier)
+    # tagged frames (802.1Q / 802.1ad / two tags) whose wire counters exceed what fits, for every residue of the MTU modulo the element
+    # sizes of the three counted lists (14 descriptors, 6 stations, 20 observations) - a handler that steps over a tag has less
+    # room behind its pointer than the MTU it computes its bound from
+    for r in range(42 if tier == 'thorough' else 14):
+        mtu = 1486 + r
+        ops = [F.iface_line(0, mac=F.OWN, mtu=mtu, buf0=0xff), F.glob_line(), 'tbl new 0', 'espinit']
+        M = F.STATIONS[0]
+        for tags in ([('8100', 100)], [('88a8', 7), ('8100', 100)], [('9100', 0)]):
+            for declared in ((mtu - 34) // 14, (mtu - 34) // 14 + 1, 0xffff):
+                f = F.emit(M, F.OWN, 5, [(1, 0, F.STATIONS[1], F.STATIONS[2])] * 3, declared=declared, pad=True)
+                g = F.discover(M, 1, 1, [F.STATIONS[1]] * 3, declared=min(declared, 0xffff), pad=True)
+                for tp, tci in tags:
+                    f, g = F.vlan(f, tci, tp), F.vlan(g, tci, tp)
+                ops += ['rx 0 ' + F.discover(M, 1, 1), 'rx 0 ' + f[:2 * mtu], 'rx 0 ' + f[:2 * mtu] + ' zero', 'rx 0 ' + g[:2 * mtu], 'rx 0 ' + g[:2 * mtu] + ' zero', 'ev 0 %s avail=%d tbl=0' % (g[:2 * mtu], mtu), 'esp ' + f[:2 * mtu]]
+        out.append(('vlan_mtu%d' % mtu, ops))
     # every length 0..60 and around the MTU of one frame per opcode (thorough: all lengths)
     mtu = 576
     for op in range(13):
